@@ -81,3 +81,72 @@ def next_off(B, o, W, S):
             UE(B, UE(B, o + 1)) if (ext(B, o) in TWO_ULEB or ext(B, o) in ULEB_SLEB) else
             form_end(B, UE(B, o + 1), 'DW_FORM_block', S) if ext(B, o) in ULEB_BLOCK else
             UE(B, o + 1))
+
+
+# ---------------------------------------------------------------- .eh_frame pointer encodings (LSB 10.5.1)
+from pyvc.vals import BoolS
+
+_W = z3.Function('Dwarf_word', ArrS, IntS, IntS, IntS)
+_FIX = {n: z3.Function(n, ArrS, IntS, IntS) for n in ('Dwarf_uint16', 'Dwarf_uint32', 'Dwarf_uint64', 'Dwarf_int16', 'Dwarf_int32',
+                                                       'Dwarf_int64')}
+_ULEB, _SLEB, _LEBEND = (z3.Function('leb.u.val', ArrS, IntS, IntS), z3.Function('leb.s.val', ArrS, IntS, IntS),
+                         z3.Function('leb.end', ArrS, IntS, IntS))
+# DW_EH_PE basic encodings: value format (low four bits of the encoding byte)
+PE_FIXED = {0x02: ('Dwarf_uint16', 2), 0x03: ('Dwarf_uint32', 4), 0x04: ('Dwarf_uint64', 8),
+            0x0a: ('Dwarf_int16', 2), 0x0b: ('Dwarf_int32', 4), 0x0c: ('Dwarf_int64', 8)}
+
+
+@_native
+def pe_known(I, basic):
+    """the basic encoding is one of absptr, uleb128, udata2/4/8, sleb128, sdata2/4/8"""
+    b = to_int(basic)
+    return z3.Or(*[b == k for k in (0x00, 0x01, 0x09) + tuple(PE_FIXED)])
+
+
+@_native
+def pe_val(I, B, p, basic, asz):
+    """the value a pointer of the given basic encoding holds at position p: an address-sized word (absptr), an
+    unsigned / signed LEB128 number, or an unsigned / signed 2-, 4- or 8-byte word"""
+    arr, p, b, a = B.arr, to_int(p), to_int(basic), to_int(asz)
+    v = _W(arr, p, a)
+    v = z3.If(b == 0x01, _ULEB(arr, p), z3.If(b == 0x09, _SLEB(arr, p), v))
+    for k, (n, _sz) in PE_FIXED.items():
+        v = z3.If(b == k, _FIX[n](arr, p), v)
+    return v
+
+
+@_native
+def pe_end(I, B, p, basic, asz):
+    """the position following a pointer of the given basic encoding at p"""
+    arr, p, b, a = B.arr, to_int(p), to_int(basic), to_int(asz)
+    e = p + a
+    e = z3.If(z3.Or(b == 0x01, b == 0x09), _LEBEND(arr, p), e)
+    for k, (_n, sz) in PE_FIXED.items():
+        e = z3.If(b == k, p + sz, e)
+    return e
+
+
+@_native
+def il_val(I, B, p):
+    """value of the initial length at p (7.4): the first word, or the following 8-byte word after the 0xffffffff escape"""
+    w = z3.Function('Dwarf_uint32', ArrS, IntS, IntS)(B.arr, to_int(p))
+    return z3.If(w == 0xffffffff, z3.Function('Dwarf_uint64', ArrS, IntS, IntS)(B.arr, to_int(p) + 4), w)
+
+
+@_native
+def il_size(I, B, p):
+    w = z3.Function('Dwarf_uint32', ArrS, IntS, IntS)(B.arr, to_int(p))
+    return z3.If(w == 0xffffffff, 12, 4)
+
+
+@_native
+def sized_word(I, B, p, size):
+    """format- or address-sized unsigned word at p"""
+    return _W(B.arr, to_int(p), to_int(size))
+
+
+@_native
+def fde_leaf(I, B, off, name):
+    """member `name` of the fixed .debug_frame FDE header (Dwarf_FDE_header: length, CIE_pointer, initial_location,
+    address_range; tied to 6.4.1 by its K2 obligation) whose initial length starts at off"""
+    return z3.Function('Dwarf_FDE_header.%s' % name, ArrS, IntS, IntS)(B.arr, to_int(off))
